@@ -13,14 +13,22 @@ package keystore
 // encrypting and on the decrypting side alike (so the same passphrase derives the same key and
 // no other string is silently treated as equal to it).
 //@ func getKDFKey
+//@   ensures[C20] @kdfout result1 == nil ==> kdf_out == result0
 //@   ensures[C20] @kdfinput err == nil ==> kdf_pwlen == uint64(len(auth)) && (forall k uint64 :: k < uint64(len(auth)) ==> kdf_pw[kdf_pwoff + k] == auth[k])
 //@   nopanic[C20]
 
 //@ func EncryptKey
 //@   ensures[C20] @kdfinput err == nil ==> kdf_pwlen == uint64(len(auth)) && (forall k uint64 :: k < uint64(len(auth)) ==> kdf_pw[kdf_pwoff + k] == auth[k])
 
+// A version-3 key file yields plaintext only if its MAC field equals keccak256 of bytes 16..32 of
+// the derived key followed by the decoded ciphertext (the MAC is checked before decryption is
+// trusted); the ghosts record the last Keccak256 call and the KDF output.
 //@ func decryptKeyV3
 //@   requires keyProtected != nil
+//@   ensures[C20] @macmatch err == nil ==> hexlen(keyProtected.Crypto.MAC) == 32 && (forall k uint64 :: k < 32 ==> keccak_last[k] == hexrow(keyProtected.Crypto.MAC)[k])
+//@   ensures[C20] @macinput err == nil ==> ref(as(keccak_in0, "[]byte")) == ref(as(kdf_out, "[]byte")) && off(as(keccak_in0, "[]byte")) == off(as(kdf_out, "[]byte")) + 16 && len(as(keccak_in0, "[]byte")) == 16
+//@   ensures[C20] @macinput2 err == nil ==> uint64(len(as(keccak_in1, "[]byte"))) == hexlen(keyProtected.Crypto.CipherText)
+//@   ensures[C20] @macinput3 err == nil ==> arr(as(keccak_in1, "[]byte")) == hexrow(keyProtected.Crypto.CipherText)
 //@   nopanic[C20]
 
 //@ func decryptKeyV1
